@@ -826,3 +826,37 @@ def copy_midrun_c04(sc, base, seed):
 
 def copy_midrun_c06(sc, base, seed):
     return copy_midrun(sc, base, seed, pid="C06")
+
+
+def c19_periodic(sc, base, seed):
+    """a horizon longer than the period of the simulation's own housekeeping (every 182 temporal units): an arbitrary loss still
+    recovering when that date passes, against the same event 60 steps later (which passes it before it occurs)"""
+    out = []
+    if seed % 4 != 0:
+        return out
+    rng = random.Random(seed + 61)
+    regs, secs, cats = scen.labels(sc["table"])
+    dt = int(sc["model"].get("dt", 1))
+    occ = 150 * dt
+    ev = {"type": "arbitrary", "occ": occ, "dur": 10 * dt, "name": None,
+          "impact": {f"{rng.choice(regs)}|{rng.choice(secs)}": rng.choice([0.2, 0.4])}, "recovery_tau": 60 * dt, "curve": "linear"}
+    a = copy.deepcopy(sc)
+    a["events"] = [ev]
+    a["T"] = 260 * dt
+    a["sim"]["save_records"] = []
+    a["sim"]["show_progress"] = False
+    k = 60 * dt
+    b = copy.deepcopy(a)
+    b["events"] = [dict(ev, occ=occ + k)]
+    b["T"] = a["T"] + k
+    ra, rb = run_records(a), run_records(b)
+    if "error" in ra or "error" in rb:
+        if ("error" in ra) != ("error" in rb):
+            out.append(viol("C19", 0, f"long horizon, shift by {k}: one run failed and the other did not", a=ra.get("error"), b=rb.get("error")))
+        return out
+    if ra["crashed"] or rb["crashed"]:
+        return out
+    n = min(ra["n"], rb["n"] - k)
+    out += cmp_records("C19", ra, rb, f"an arbitrary loss recovering across temporal unit 182, delayed by 60 steps ({k} temporal units)",
+                       rtol=1e-9, atol_scale=1e-9, rows_a=slice(0, n), rows_b=slice(k, k + n))
+    return out
